@@ -146,6 +146,18 @@ def main():
             P = (np.asarray(P[0]).astype(np.int64), np.asarray(P[1]).astype(np.int64))
             res['info'].update({'vec': vec, 'shape': [int(x) for x in S.shape], 'bs': [[int(a), int(b)] for a, b in S.bs],
                                 'nqp': int(max(kv.p for kv in kvs) + 1), 'p': [int(kv.p) for kv in kvs]})
+            if full and case['form'] == 'custom' and case.get('want_source'):
+                # the text the code generator emits for this form (what compile_vform compiles)
+                try:
+                    gargs = {'geo': geo}
+                    for k, v in (case.get('args') or {}).items():
+                        gargs[k] = resolve(v, dim)
+                    gbf = [tuple(b) for b in case['bfuns']] if case.get('bfuns') else None
+                    gvf = vform.parse_vf(case['expr'], kvs, args=gargs, bfuns=gbf, boundary=False,
+                                         updatable=list(case.get('updatable') or []))
+                    res['info']['gen_src'] = pcompile.generate(gvf)
+                except Exception as e:   # noqa
+                    res['status']['gen_src'] = errclass(e) + ': ' + str(e)[:200]
             if full:
                 res['info']['bidx'] = bidx
                 res['info']['P'] = [P[0].tolist(), P[1].tolist()]
